@@ -11,16 +11,99 @@ OWNER_BY_INV = {
 }
 
 
-def owner(rej):
-    """which property a rejection belongs to, and its structural key"""
+GROUP_OPS = {   # mirror of harness/src/client_scen.rs: group() - (h, kind, ids taken)
+    "route": [("a", "call", 1), ("b", "call", 1), ("c", "call", 1), ("d", "sub", 2)],
+    "stream": [("a", "sub", 2), ("b", "sub", 2), ("c", "call", 1)],
+    "tight": [("a", "sub", 2), ("b", "sub", 2), ("c", "call", 1), ("d", "call", 1)],
+    "batch": [("a", "batch", 3), ("b", "batch", 2), ("c", "call", 1)],
+    "faulty": [("a", "call", 1), ("b", "sub", 2), ("c", "batch", 2), ("d", "call", 1)],
+    "mixed": [("a", "call", 1), ("b", "sub", 2), ("c", "batch", 2), ("d", "sub", 2)],
+}
+
+
+def _ids_by_op(group, evs):
+    """first wire id of each started operation: the client numbers requests 0,1,2,.. in the order the futures start"""
+    ops = {h: (k, n) for h, k, n in GROUP_OPS.get(group, [])}
+    nxt, first = 0, {}
+    for e in evs:
+        if e.get("ev") == "FeStart" and e["h"] in ops and e["h"] not in first:
+            first[e["h"]] = nxt
+            nxt += ops[e["h"]][1]
+    return first, ops
+
+
+def _resp_elems(m):
+    if m.get("t") == "resp":
+        return [m]
+    if m.get("t") == "array":
+        return [x for x in m["elems"] if x.get("t") == "resp"]
+    return []
+
+
+def _quiet_owner(group, evs, ev):
+    """Who owns a trace that the spec stops explaining at a quiescence probe (Quiet / the Connected and Sizes that follow it):
+    the client still owes a step the design says it takes on its own.  Decided from what happened before (evs = the events
+    up to the unexplained one)."""
+    names = [e.get("ev") for e in evs]
+    if "SendFault" in names or "RecvFault" in names:
+        return "C09", "shutdown-not-completed-after-fault"
+    if any(e.get("ev") == "WireIn" and e.get("m", {}).get("t") == "garbage" for e in evs):
+        return "C09", "not-abandoned-after-unparseable-text"
+    # a stream the application gave up (or that lagged) whose unsubscribe never reached the wire
+    sub_of = {e["h"]: e["res"]["sub"] for e in evs if e.get("ev") == "FeDone" and e.get("res", {}).get("k") == "sub"}
+    for i, e in enumerate(evs):
+        gave_up = e.get("ev") in ("SubDrop", "SubUnsub") or (e.get("ev") == "SubEnd" and e.get("lagged"))
+        if gave_up and e.get("h") in sub_of:
+            s = sub_of[e["h"]]
+            closed_by_server = any(x.get("ev") == "WireIn" and any(y.get("t") == "close" and y.get("sub") == s for y in ([x["m"]] + x["m"].get("elems", [])))
+                                   for x in evs[:i] if isinstance(x.get("m"), dict))
+            unsub_written = any(x.get("ev") == "WireOut" and x.get("k") == "unsub" and x.get("sub") == s for x in evs)
+            if not closed_by_server and not unsub_written:
+                return ("C05", "C18"), "unsubscribe-never-written"
+    # a response that was consumed while its call never completed
+    first, ops = _ids_by_op(group, evs)
+    done = {e["h"] for e in evs if e.get("ev") == "FeDone"}
+    consumed = set()
+    for e in evs:
+        if e.get("ev") == "WireIn" and isinstance(e.get("m"), dict):
+            consumed |= {x["id"] for x in _resp_elems(e["m"])}
+    for h, f in first.items():
+        if h not in done and ops[h][0] in ("call", "sub") and f in consumed:
+            return "C03", "response-consumed-call-not-completed"
+    if ev == "Sizes":
+        return "C18", "tables-differ"          # the client is quiescent (the Quiet before was accepted) but its tables hold something else
+    return "C09", "client-not-quiescent"
+
+
+def _batch_owner(group, evs, e):
+    """a batch result the spec cannot explain: C12; also C03 when a slot holds the answer to another id"""
+    first, ops = _ids_by_op(group, evs)
+    tok_id = {}
+    for x in evs:
+        if x.get("ev") == "PeerSend" and isinstance(x.get("m"), dict):
+            for r in _resp_elems(x["m"]):
+                tok_id[r.get("tok")] = r.get("id")
+    h = e.get("h")
+    if h in first:
+        for i, t in enumerate(e.get("res", {}).get("toks", [])):
+            if t in tok_id and tok_id[t] != first[h] + i:
+                return ("C12", "C03")
+    return "C12"
+
+
+def owner(rej, group=None, evs=()):
+    """which property a rejection belongs to, and its structural key (evs: the scenario's events up to the unexplained one)"""
     if "invariant" in rej:
         return OWNER_BY_INV.get(rej["invariant"], "C03"), "invariant:" + rej["invariant"]
     e = rej["event"]
     ev = e.get("ev", "?")
+    if ev in ("Quiet", "Sizes") or (ev == "Connected" and evs and evs[-1].get("ev") == "Quiet"):
+        own, why = _quiet_owner(group, list(evs), ev)
+        return own, "unmatched:%s:%s" % (ev, why)
     if ev == "FeDone":
         k = e.get("res", {}).get("k", "?")
         if k == "batch":
-            return "C12", "unmatched:FeDone:batch"
+            return _batch_owner(group, list(evs), e), "unmatched:FeDone:batch"
         if k in ("ok", "err", "sub", "fail"):
             return "C03", "unmatched:FeDone:" + k
         if k == "restart" and e.get("res", {}).get("cause") == "notPending":
@@ -33,8 +116,6 @@ def owner(rej):
         return {"unsub": "C05", "batch": "C12"}.get(k, "C03"), "unmatched:WireOut:" + str(k)
     if ev in ("SubNext", "SubEnd", "SubUnsub", "SubUnsubDone", "SubDrop"):
         return "C05", "unmatched:" + ev
-    if ev == "Sizes":
-        return "C18", "unmatched:Sizes"
     if ev == "WireIn":
         return "C03", "unmatched:WireIn"
     return "C09", "unmatched:" + ev
@@ -93,7 +174,8 @@ def run_client(pid, tier, rep, design_cfgs, asis, groups, nscen):
                                     "note": "trace validation of %d scenarios (%d TLC runs)" % (len(scs), stats["runs"])})
         accepted += ok
         for r in rejs:
-            own, key = owner(r)
+            evs_before = [json.loads(x) for x in scs[r["scenario"]][:max(0, r["line_in_scenario"] - 1)]]
+            own, key = owner(r, g, evs_before)
             detail = {"group": g, "scenario": r["scenario"], "line_in_scenario": r["line_in_scenario"],
                       "first_unexplained": r.get("event") or r.get("invariant"),
                       "trace": [json.loads(x) for x in scs[r["scenario"]]][:400]}
